@@ -104,10 +104,16 @@ static void gen_addr(Node *node) {
     if (opt_fpic) {
       // Thread-local variable
       if (node->var->is_tls) {
+        // This is a function call: the stack pointer must be a
+        // multiple of 16, whatever has been pushed so far.
+        if (depth % 2)
+          println("  sub $8, %%rsp");
         println("  data16 lea %s@tlsgd(%%rip), %%rdi", sym(node->var->name));
         println("  .value 0x6666");
         println("  rex64");
         println("  call __tls_get_addr@PLT");
+        if (depth % 2)
+          println("  add $8, %%rsp");
         return;
       }
 
